@@ -166,6 +166,8 @@ def catalogue():
         C.append({"name": f"gbw-index-{how}", "fam": "groupby", "steps": [S("v1", "groupby_window", ["A"], by="idx", col="i", how=how)], "out": "v1", "index": IDX})
     for how in ("median", "prod"):
         C.append({"name": f"gbh-index-{how}", "fam": "groupby", "steps": [S("v1", "groupby_holistic", ["A"], by=["idx"], cols=["i", "f"], how=how, series=False)], "out": "v1", "index": IDX})
+    for lo, hi in ((5, 2), (7, 0), (3, 2)):
+        C.append({"name": f"loc-reversed-{lo}-{hi}", "fam": "loc", "steps": [S("v1", "loc_slice", ["A"], lo=lo, hi=hi)], "out": "v1"})
     for how in ("sum", "mean", "nunique", "var"):
         C.append({"name": f"gb-index-{how}", "fam": "groupby", "steps": [S("v1", "groupby_agg", ["A"], by=["idx"], col="f", how=how, split_out=1, sort=None)], "out": "v1", "index": IDX})
     return C
